@@ -730,11 +730,27 @@ class Session:
         """distselect / randselect observed for every value the generator can return (C15)"""
         import random as _random
         weights = op["weights"]
-        total = sum(weights)
         results, called = [], []
         orig = _random.randint
         exc = "none"
-        for seed in range(1, total + 1):
+        # which range does the helper draw from?  (observed, not assumed)
+        rng_seen = []
+
+        def first(a, b):
+            rng_seen.append((int(a), int(b)))
+            return a
+        _random.randint = first
+        try:
+            if op["kind"] == "distselect":
+                vsc.distselect(list(weights))
+            else:
+                vsc.randselect([(w, (lambda: None)) for w in weights])
+        except Exception as e:
+            exc = exc_name(e)
+        finally:
+            _random.randint = orig
+        lo, hi = rng_seen[0] if rng_seen else (1, 0)
+        for seed in range(lo, hi + 1):
             _random.randint = lambda a, b, _s=seed: _s
             try:
                 if op["kind"] == "distselect":
@@ -749,7 +765,7 @@ class Session:
                 results.append(0)
             finally:
                 _random.randint = orig
-        self.emit({"op": "select", "kind": op["kind"], "weights": weights, "results": results,
+        self.emit({"op": "select", "kind": op["kind"], "weights": weights, "results": results, "lo": lo, "hi": hi, "ndraws": len(rng_seen),
                    "called": called if op["kind"] == "randselect" else results, "exc": exc})
 
     def _w(self, p):
